@@ -18,7 +18,7 @@ def rename(text):
                  ("step", "outcome"), ("scope", "frame"), ("tail_args", "again"), ("coerced", "shaped"), ("out", "produced"),
                  ("output", "res"), ("arm", "a"), ("arm_ix", "k"), ("arm_idx", "k"), ("detached_source", "subject"), ("source", "raw"),
                  ("match_expr", "mx"), ("missing_patterns", "lacking"), ("fxn_call", "call0"), ("value", "val")]:
-        text = re.sub(r'(?<![\w.])%s\b(?!\s*:(?!:))' % a, b, text)      # not after a `.` (fields) and not a field label `x:`
+        text = re.sub(r'(?<![\w.])%s\b' % a, b, text)      # not after a `.`: field names stay
     return text
 
 def reformat(text):
@@ -40,34 +40,8 @@ EXPERIMENTS = [
  ("arms-on-original", "in the tail-call loop the arms run on the arguments of the original call", FN,
   "execute_function_match_arms(fxn_def, &current_args, p)?;", "execute_function_match_arms(fxn_def, input_arg_values, p)?;"),
  ("guard-first", "a guard evaluated before (and regardless of) the pattern", EX,
-  """let matched = match &arm.pattern {
-            Pattern::Wildcard => true,
-            _ => crate::patterns::pattern_matches_value_with_semantics(
-                &arm.pattern,
-                &detached_source,
-                &mut guard_env,
-                p,
-                crate::patterns::PatternMatchSemantics::OptionGuard,
-            )?,
-        };
-        let passed_guard = matched && match &arm.guard {
-            Some(guard) => guard_expression_true(guard, &guard_env, p)?,
-            None => true,
-        };""",
-  """let passed_guard = match &arm.guard {
-            Some(guard) => guard_expression_true(guard, &guard_env, p)?,
-            None => true,
-        };
-        let matched = match &arm.pattern {
-            Pattern::Wildcard => true,
-            _ => crate::patterns::pattern_matches_value_with_semantics(
-                &arm.pattern,
-                &detached_source,
-                &mut guard_env,
-                p,
-                crate::patterns::PatternMatchSemantics::OptionGuard,
-            )?,
-        };"""),
+  lambda t: (lambda m: t.replace(m.group(0), m.group(2).replace("matched && match", "match") + "\n        " + m.group(1)) if m else t)(
+      re.search(r'(let matched = match &arm\.pattern \{.*?\n        \};)\s*// The guard[^\n]*\n\s*(let passed_guard = matched && match &arm\.guard \{.*?\n        \};)', t, re.S)), None),
  ("guard-ungated", "the guard evaluated whether or not the pattern matched (C16-D1 undone)", EX,
   "let passed_guard = matched && match &arm.guard {", "let passed_guard = match &arm.guard {"),
  ("guard-in-base", "the guard evaluated in the base environment", EX,
@@ -85,7 +59,7 @@ EXPERIMENTS = [
  ("tail-keeps-args", "a tail call does not replace the arguments", FN, "current_args = next_args;", "let _ = next_args;"),
  ("no-arm-skipped", "a matched arm does not stop the scan (the `return` of the value dropped)", FN,
   "return Ok(FunctionCallStep::Return(coerced));", "let _ = FunctionCallStep::Return(coerced);"),
- ("not-matched", "`if !matched`", FN, "if matched { if let Expression::FunctionCall", "if !matched { if let Expression::FunctionCall"),
+ ("not-matched", "`if !matched`", FN, lambda t: re.sub(r'if matched \{(\s*// Tail-call)', r'if !matched {\1', t), None),
  ("wildcard-false", "a wildcard arm of a match does not match", EX, "Pattern::Wildcard => true, _ => crate::patterns::pattern_matches_value_with_semantics( &arm.pattern, &detached_source,",
   "Pattern::Wildcard => false, _ => crate::patterns::pattern_matches_value_with_semantics( &arm.pattern, &detached_source,"),
  ("match-into-base", "the pattern of a match arm matched into the base environment", EX,
